@@ -391,7 +391,8 @@ pub fn run_with(w: usize, t: usize, reorder: bool, src: &str, given: Option<&str
                 let b = obs::obs_markup(oroot);
                 // no rewrapping: inside a line that holds text, line breaks do not depend on the width
                 let (mut wa, mut wb) = (Vec::new(), Vec::new());
-                if let Outcome::Ok(wide) = format(config(1_000_000, t, reorder), src) {
+                let wide_out = if given.is_none() { format(config(1_000_000, t, reorder), src) } else { Outcome::Err };
+                if let Outcome::Ok(wide) = wide_out {
                     let ws = Source::detached(wide);
                     wa = obs::obs_mixed_breaks(oroot);
                     wb = obs::obs_mixed_breaks(ws.root());
@@ -483,7 +484,8 @@ pub fn run_with(w: usize, t: usize, reorder: bool, src: &str, given: Option<&str
                             }
                         }
                     }
-                    if let Outcome::Ok(out_off) = format(config(w, t, false), src) {
+                    let off_out = if given.is_none() { format(config(w, t, false), src) } else { Outcome::Err };
+                    if let Outcome::Ok(out_off) = off_out {
                         let off = Source::detached(out_off);
                         if obs::without_import_items(oroot) != obs::without_import_items(off.root()) {
                             ok19 = false;
